@@ -436,6 +436,11 @@ func (g *structGen) genStruct(depth int) (desc.T, desc.V) {
 		}
 		if g.unexported && rapid.IntRange(0, 7).Draw(g.t, "unexported") == 0 {
 			f.Name = strings.ToLower(f.Name) + "x"
+			if rapid.IntRange(0, 3).Draw(g.t, "nonASCIIUnexp") == 0 {
+				f.Name = []string{"é", "ω", "д", "ñ"}[i%4] + f.Name // unexported, first letter outside ASCII
+			}
+		} else if rapid.IntRange(0, 11).Draw(g.t, "nonASCIIName") == 0 {
+			f.Name = []string{"É", "Ω", "Д", "Ñ"}[i%4] + strings.ToLower(f.Name) // exported: Go's rule is "upper-case letter", not A-Z
 		}
 		ty.Fields = append(ty.Fields, f)
 		val.E = append(val.E, v)
